@@ -13,6 +13,11 @@
 
 namespace ef {
 
+static bool known(const char* sig) {
+  std::string k = "," + vk::ctx().arg("known") + ",";
+  return k.find(std::string(",") + sig + ",") != std::string::npos;
+}
+
 static bool g_compare = true;      // model comparison active for this run
 static bool g_diverged = false;
 static Model* g_model = nullptr;
@@ -30,6 +35,8 @@ void begin_run(const ShapeDesc& sd, RunCtl& ctl, RunState& rs) {
   for (auto& kv : ctl.plan.node_arg) w.node_arg[kv.first] = kv.second;
   w.fault_node = ctl.plan.fault_node; w.fault_call = ctl.plan.fault_call;
   w.throw_at = ctl.plan.anon_fault;
+  // KNOWN FINDING value_copy_throw_terminates: excluded by construction = value copies/moves never throw
+  w.tracked_faults = !known("value_copy_throw_terminates");
   rs.ledger.id = 1;
   if (rs.use_inplace) rs.inplace = new unifex::inplace_stop_source();
   ctl.out = Outcome();
@@ -44,6 +51,7 @@ static void real_stop(RunState& rs) {
 }
 
 static void compare_step(const ShapeDesc& sd, RunState& rs, Model& m, const char* after) {
+  if (m.unspecified && g_compare) { g_compare = false; vk::ctx().label("unspecified-by-docs(when_any under receiver stop)"); }
   if (!g_compare || g_diverged) return;
   sr::World& w = rs.w;
   // pending sets
@@ -205,7 +213,7 @@ void drive(const ShapeDesc& sd, RunCtl& ctl, RunState& rs, const std::function<v
         if (r.tok_stop_possible != mr.tok_possible) SR_FAIL("C12", "stop_token_query", "leaf%d#%zu sees a stop token with stop_possible()=%d, expected %d [%s]", l, i, (int)r.tok_stop_possible, (int)mr.tok_possible, sd.text);
         if (r.q_sched != mr.sched) SR_FAIL("C12", "scheduler_query", "leaf%d#%zu sees get_scheduler() = ctx%ld, expected ctx%d [%s]", l, i, r.q_sched, mr.sched, sd.text);
         if (r.q_tag != mr.tag) SR_FAIL("C12", "custom_query", "leaf%d#%zu sees the custom receiver query = %ld, expected %ld [%s]", l, i, r.q_tag, mr.tag, sd.text);
-        if (r.q_alloc != 1) SR_FAIL("C12", "allocator_query", "leaf%d#%zu sees get_allocator() = #%ld, expected the root's allocator #1 [%s]", l, i, r.q_alloc, sd.text);
+        if (r.q_alloc != mr.alloc) SR_FAIL("C12", "allocator_query", "leaf%d#%zu sees get_allocator() = #%ld, expected #%ld [%s]", l, i, r.q_alloc, mr.alloc, sd.text);
       }
   }
   for (auto& v : w.runs) for (auto& r : v) { if (r.started) ctl.out.leaves_started++; if (r.completed && r.chan != sr::VALUE) ctl.out.nonvalue_leaf = true; }
@@ -220,7 +228,7 @@ void end_run(const ShapeDesc& sd, RunCtl& ctl, RunState& rs) {
   o.signals = w.root_signals; o.result = w.root; o.result_ctx = w.root_ctx; o.fault_fired = w.fault_fired;
   // ---- C01: exactly once / never without start
   if (!o.started && w.root_signals != 0) SR_FAIL("C01", "completion_without_start", "the receiver was completed although the operation was never started [%s]", sd.text);
-  if (!g_compare && o.started && !w.abandoned && w.root_signals != 1) SR_FAIL("C01", "completion_count_under_fault", "after an injected exception the operation delivered %d completion signals [%s]", w.root_signals, sd.text);
+  if (!g_compare && o.started && !w.abandoned && w.root_signals != 1) SR_FAIL("C01", "completion_count", "the operation was started and all of its leaves completed, but it delivered %d completion signals [%s]", w.root_signals, sd.text);
   // ---- C05: result equals the documented function of the inputs
   if (g_compare && !g_diverged && o.started && o.model_done && w.root_signals >= 1) {
     const sr::Result &a = w.root, &b = o.model_result;
@@ -228,6 +236,21 @@ void end_run(const ShapeDesc& sd, RunCtl& ctl, RunState& rs) {
     else if (a.chan == sr::VALUE && a.payload != b.payload) SR_FAIL("C05", "result_value", "completed with value %llx, the documented behaviour gives %llx [%s]", (unsigned long long)a.payload, (unsigned long long)b.payload, sd.text);
     else if (a.chan == sr::ERROR && a.err != b.err) SR_FAIL("C05", "result_error", "completed with error %ld, the documented behaviour gives %ld [%s]", a.err, b.err, sd.text);
     if (o.result_ctx != o.model_ctx) SR_FAIL("C11", "completion_context", "result delivered on ctx%d, expected ctx%d [%s]", o.result_ctx, o.model_ctx, sd.text);
+  }
+  // ---- C11: static sender traits are sound
+  if (o.started && w.root_signals >= 1) {
+    int bk = ctl.trait_blocking;  // 0 always_inline, 1 always, 2 maybe, 3 never
+    if ((bk == 0 || bk == 1) && !w.root_completed_in_start)
+      SR_FAIL("C11", "blocking_trait", "sender_traits<>::blocking is %s but the operation completed only after start() had returned [%s]", bk == 0 ? "always_inline" : "always", sd.text);
+    if (bk == 0 && w.root_ctx != 0)
+      SR_FAIL("C11", "blocking_trait_thread", "sender_traits<>::blocking is always_inline but the completion happened on another context (ctx%d) [%s]", w.root_ctx, sd.text);
+    if (!ctl.trait_sends_done && w.root.chan == sr::DONE)
+      SR_FAIL("C11", "sends_done_trait", "sender_traits<>::sends_done is false but the operation completed with done [%s]", sd.text);
+    if (ctl.trait_affine && w.root_ctx != 0 && !w.root_completed_in_start)
+      SR_FAIL("C11", "affine_trait", "sender_traits<>::is_always_scheduler_affine is true, the operation was started on ctx0 but completed on ctx%d [%s]", w.root_ctx, sd.text);
+    if (bk == 0 || bk == 1) vk::ctx().label("trait:blocking-always");
+    if (!ctl.trait_sends_done) vk::ctx().label("trait:never-done");
+    if (ctl.trait_affine) vk::ctx().label("trait:affine");
   }
   // ---- C02: everything destroyed exactly once, nothing leaked
   if (!w.pending.empty()) SR_FAIL("C02", "pending_after_teardown", "%zu operation(s) still registered as in flight after the operation state was destroyed [%s]", w.pending.size(), sd.text);
@@ -250,17 +273,26 @@ void end_run(const ShapeDesc& sd, RunCtl& ctl, RunState& rs) {
 }
 
 // ------------------------------------------------------------------ decode a plan for a shape
+
 static Plan decode_plan(const ShapeDesc& sd, vk::Choice& c) {
   Plan p;
   p.spec.resize((size_t)sd.nleaves);
   // which leaves sit below a retry_when source (their last attempt must not be an error, or the case would not terminate)
-  std::vector<bool> under_retry((size_t)sd.nleaves, false), unstoppable((size_t)sd.nleaves, false);
-  std::function<void(int, bool, bool)> walk = [&](int idx, bool ur, bool us) {
+  std::vector<bool> under_retry((size_t)sd.nleaves, false), unstoppable((size_t)sd.nleaves, false), embedded_src((size_t)sd.nleaves, false);
+  std::vector<int> leaf_kind((size_t)sd.nleaves, 0);
+  std::function<void(int, bool, bool, bool)> walk = [&](int idx, bool ur, bool us, bool es) {
     const NodeDesc& n = sd.nodes[idx];
-    if (n.kind == K_LEAF || n.kind == K_LEAFV) { under_retry[(size_t)n.a] = under_retry[(size_t)n.a] || ur; unstoppable[(size_t)n.a] = unstoppable[(size_t)n.a] || us; }
-    for (int i = 0; i < n.nchild; ++i) walk(n.child[i], ur || (n.kind == K_RETRY_WHEN), us || (n.kind == K_UNSTOPPABLE));
+    if (n.kind == K_LEAF_AI) leaf_kind[(size_t)n.a] = 1;
+    if (n.kind == K_LEAF_ND) leaf_kind[(size_t)n.a] = 2;
+    if (n.kind == K_LEAF || n.kind == K_LEAFV || n.kind == K_LEAF_AI || n.kind == K_LEAF_ND) { under_retry[(size_t)n.a] = under_retry[(size_t)n.a] || ur; unstoppable[(size_t)n.a] = unstoppable[(size_t)n.a] || us; embedded_src[(size_t)n.a] = embedded_src[(size_t)n.a] || es; }
+    for (int i = 0; i < n.nchild; ++i) walk(n.child[i], ur || (n.kind == K_RETRY_WHEN), us || (n.kind == K_UNSTOPPABLE), es || n.kind == K_ANY || n.kind == K_LVWSS);
   };
-  walk(sd.root, false, false);
+  walk(sd.root, false, false, false);
+  // KNOWN FINDING stop_source_destroyed_in_callback: an operation that embeds its own inplace_stop_source
+  // (let_value_with_stop_source's fused source, any_sender_of's token adapter) is destroyed while that source's
+  // request_stop() is still on the stack when a child completes synchronously inside its stop callback.
+  // Excluded by construction: such leaves answer a stop request with a *deferred* done instead.
+  const bool exclude_embedded = known("stop_source_destroyed_in_callback");
   std::string t;
   for (int l = 0; l < sd.nleaves; ++l) {
     sr::LeafSpec& s = p.spec[(size_t)l];
@@ -275,6 +307,8 @@ static Plan decode_plan(const ShapeDesc& sd, vk::Choice& c) {
       // a leaf that completes only in reaction to stop but can never see one (below unstoppable()) would never
       // complete; tearing down a running operation is not a legal thing for the harness to do
       if (at.timing == 2 && unstoppable[(size_t)l]) at.timing = 1;
+      if (leaf_kind[(size_t)l] == 1) at.timing = 0;                                   // declared always_inline: the harness leaf honours its own trait
+      if (leaf_kind[(size_t)l] == 2 && at.chan == sr::DONE) at.chan = sr::VALUE;      // declared sends_done == false
       at.ctx = (int)c.upto(4);
       if (a == na - 1 && under_retry[(size_t)l] && at.chan == sr::ERROR) at.chan = sr::VALUE;
       s.attempts.push_back(at);
@@ -282,7 +316,9 @@ static Plan decode_plan(const ShapeDesc& sd, vk::Choice& c) {
     unsigned os = c.upto(20);
     s.on_stop = os < 6 ? 0 : os < 15 ? 1 : 2;
     s.stop_root_in_start = c.chance(1, 16);
+    if (leaf_kind[(size_t)l] == 2) { s.on_stop = 0; for (auto& at : s.attempts) if (at.timing == 2) at.timing = 1; }
     for (auto& at : s.attempts) if (at.timing == 2 && s.on_stop == 0) s.on_stop = 1;
+    if (exclude_embedded && embedded_src[(size_t)l] && s.on_stop == 1) { s.on_stop = 2; vk::ctx().label("altered-by-known-finding:stop_source_destroyed_in_callback"); }
     t += vk::sfmt("L%d{", l);
     for (auto& at : s.attempts) t += vk::sfmt("%s%s/%s/ctx%d ", sr::chan_name(at.chan), at.chan == sr::ERROR ? (at.errkind ? ":Err" : ":exc") : "", at.timing == 0 ? "inline" : at.timing == 1 ? "deferred" : "on-stop-only", at.ctx);
     t += vk::sfmt("on_stop=%s%s} ", s.on_stop == 0 ? "ignore" : s.on_stop == 1 ? "done-inline" : "done-deferred", s.stop_root_in_start ? " stops-root-in-start" : "");
@@ -339,10 +375,17 @@ void vk_run_case(vk::Choice& c) {
   static bool sorted_once = false;
   if (!sorted_once) { sorted_once = true; std::sort(shapes.begin(), shapes.end(), [](const ShapeDesc* a, const ShapeDesc* b) { return a->id < b->id; }); }
   if (shapes.empty()) { cx.fail("*", "no_shapes", "no shapes registered"); return; }
-  const ShapeDesc& sd = *shapes[c.upto((uint32_t)shapes.size())];
+  const ShapeDesc* chosen = shapes[c.upto((uint32_t)shapes.size())];
+  if (long forced = cx.argi("shape", -1); forced >= 0) {   // regression replays pin the shape by id
+    chosen = nullptr;
+    for (auto* s : shapes) if (s->id == forced) chosen = s;
+    if (!chosen) { cx.discard = true; cx.discard_why = "shape id not in this catalogue"; return; }
+  }
+  const ShapeDesc& sd = *chosen;
   RunCtl ctl; ctl.c = &c;
   ctl.plan = decode_plan(sd, c);
   cx.desc = vk::sfmt("shape%d cfg%d: %s :: %s", sd.id, sd.cfg, sd.text, ctl.plan.text.c_str());
+  cx.tr("CASE %s", cx.desc.c_str());
   // known findings are excluded by construction
   std::string known = "," + cx.arg("known") + ",";
   if (known.find(",when_any_done_first,") != std::string::npos) {
